@@ -447,7 +447,7 @@ def _apply_mutation(cls, args, kind, i, pick):
 
 @st.composite
 def st_rejection_case(draw):
-    spec = draw(G.st_settings())
+    spec = draw(st.one_of(G.st_nldf(), G.st_settings()))     # half of the cases on the NLDF classes (most validation logic)
     cls, args = G.ctor_args(spec)
     targets = _mut_targets(cls, args)
     if not targets:      # SDMXSettings(pows) has no argument with a typed invalid variant
